@@ -286,10 +286,64 @@ def match_single_shape(ctx, py: PyRepo):
            facts={'recursive calls': len(rec)})
 
 
+def match_single_paths(ctx, py: PyRepo):
+    """path rules on match_single: (1) a notation pattern is matched by matching its expansion - in that branch `None` (failure) may be
+    returned only by the delegation, a shortcut may only return a success; (2) an equality test between destructured components is
+    between the components established (not None / truthy) on that very path, for one constructor"""
+    from ..core.pyeval import PyEval, show
+    fn = py.function('pattern', 'match_single')
+    where = py.where('pattern', fn)
+    P, I = ('param', fn.args.args[0].arg), ('param', fn.args.args[1].arg)
+    paths = PyEval().paths(fn)
+
+    def is_destr(v):
+        # C.deconstruct(x) / C.unwrap(x) and items of them
+        if v[0] in ('item', 'sub') and isinstance(v[1], tuple):
+            return is_destr(v[1])
+        if v[0] == 'call' and v[1][0] == 'attr' and v[1][2] in ('deconstruct', 'unwrap') and v[1][1][0] == 'name' and len(v[2]) == 1 \
+                and v[2][0] in (P, I):
+            return (v[1][1][1], v[2][0])
+        return None
+
+    deleg_ok = True
+    notation_paths = 0
+    bad_cmp = []
+    for p in paths:
+        in_notation = any(c == ('call', ('name', 'isinstance'), (P, ('name', 'Instantiate')), ()) and b is True for c, b in p.conds)
+        if in_notation and p.end[0] == 'return':
+            notation_paths += 1
+            v = p.end[1]
+            delegation = v[0] == 'call' and v[1] == ('name', 'match_single') and len(v[2]) >= 2 \
+                and v[2][0] == ('call', ('attr', P, 'simplify'), (), ()) and v[2][1] == I
+            can_fail = v == ('const', None) or (v[0] == 'call' and v[1] == ('name', 'match_single')) or v[0] == 'loopvar'
+            if not delegation and can_fail:
+                deleg_ok = False
+        # established destructurings on this path
+        est = set()
+        for c, b in p.conds:
+            if c[0] == 'cmp' and c[1] == 'is' and c[3] == ('const', None) and b is False and is_destr(c[2]):
+                est.add(is_destr(c[2]))
+            elif b is True and is_destr(c) and c[0] == 'call':
+                est.add(is_destr(c))
+        for c, b in p.conds:
+            if c[0] == 'cmp' and c[1] == '==' and is_destr(c[2]) and is_destr(c[3]):
+                a, d = is_destr(c[2]), is_destr(c[3])
+                if a[0] != d[0] or a not in est or d not in est:
+                    bad_cmp.append(f'{show(c)} on a path that established only {sorted(x[0] for x in est)}')
+    ctx.ob('match-shape', 'notation-matched-through-expansion', deleg_ok and notation_paths >= 1,
+           'in the notation branch of match_single a failure (None) is returned without trying the expansion: two applications of one '
+           'notation can denote equal patterns although their arguments differ (an argument the definition ignores), so a shortcut may '
+           'only confirm a match, never refute one', where, facts={'paths in the notation branch': notation_paths})
+    ctx.ob('match-shape', 'components-compared-per-constructor', not bad_cmp,
+           'match_single compares destructured components that do not belong to the constructor case being handled: ' + '; '.join(sorted(set(bad_cmp))[:2]),
+           where)
+
+
 def run(ctx):
     py = PyRepo.get()
     lint(ctx, py)
     match_single_shape(ctx, py)
+    match_single_paths(ctx, py)
     # C12 T1 for match_single
     from . import c12
     for mname, qn, fn, subj, lst, has_inst in c12.dispatch_sites(py):
@@ -299,7 +353,7 @@ def run(ctx):
                    'match_single tests the pattern for MetaVar before expanding notation: a notation whose body is a bare metavariable never matches',
                    py.where(mname, fn))
     ctx.floor('optional-truthiness', 12)
-    ctx.floor('match-shape', 9)
+    ctx.floor('match-shape', 11)
     ctx.explanation = (
         'Type-directed truthiness rule over the whole package: every value of type `T | None` (type from the resolved callee\'s return '
         'annotation, a parameter or local annotation) that is tested by truthiness (if / while / and / or / not / walrus / assert / '
